@@ -290,7 +290,18 @@ func (ps *parser) postfix() (Expr, error) {
 		if err != nil {
 			u, err2 := strconv.ParseUint(t.text, 0, 64)
 			if err2 != nil {
-				return nil, fmt.Errorf("bad integer %q", t.text)
+				// arbitrary-size decimal literal (e.g. 2^64)
+				ok := len(t.text) > 0
+				for _, ch := range t.text {
+					if ch < '0' || ch > '9' {
+						ok = false
+					}
+				}
+				if !ok {
+					return nil, fmt.Errorf("bad integer %q", t.text)
+				}
+				e = &EInt{t.text}
+				break
 			}
 			e = &EInt{strconv.FormatUint(u, 10)}
 		} else {
@@ -505,6 +516,7 @@ type PkgContracts struct {
 	Order    []string
 	Ghosts   []*Ghost
 	Immutable []string
+	Private  []string
 	PkgInvs  []*Clause // facts about package-level variables: established by init, assumed elsewhere
 	ChanInvs map[string][]*Clause // "Type.field" -> invariant over v
 }
@@ -522,7 +534,7 @@ var clauseKeywords = map[string]bool{
 	"requires": true, "ensures": true, "modifies": true, "loop": true, "maypanic": true,
 	"opaque": true, "pure": true, "assume": true, "noinline": true, "overflow": true,
 	"wraps": true, "fresh": true, "at": true, "induction": true, "params": true,
-	"ghost": true, "chaninv": true, "ufunc": true, "immutable": true, "inline": true, "uses": true, "postuses": true, "deterministic": true, "pkginv": true,
+	"ghost": true, "chaninv": true, "ufunc": true, "immutable": true, "inline": true, "uses": true, "postuses": true, "private": true, "deterministic": true, "pkginv": true,
 }
 
 // parseContractLines parses the "//@" lines of one package.
@@ -555,6 +567,10 @@ func parseContractLines(pkg string, lines []string) (*PkgContracts, error) {
 	for _, s := range stmts {
 		kw, rest := splitKeyword(s)
 		switch kw {
+		case "private":
+			// struct types whose fields only this package's functions write
+			pc.Private = append(pc.Private, strings.Fields(rest)...)
+			cur, curLemma = nil, nil
 		case "pkginv":
 			label, src := splitLabel(rest)
 			e, err := parseExpr(src)
